@@ -47,7 +47,12 @@ func SortVersions(vs []Version) {
 			// Does this make any sense at all?
 			return vs[i].Version < vs[j].Version
 		}
-		return vi.Compare(vj) < 0
+		if c := vi.Compare(vj); c != 0 {
+			return c < 0
+		}
+		// Distinct spellings of one version (1.0 and 1.0.0): the order must
+		// not depend on the order they came in.
+		return vs[i].Version < vs[j].Version
 	})
 }
 
